@@ -41,7 +41,7 @@ type Case struct {
 var Types = []string{"int8", "uint16", "int32", "int64", "float32", "float64", "NInt16", "NFloat32"}
 
 const (
-	nReadOps  = 14
+	nReadOps  = 15
 	nWriteOps = 7
 )
 
@@ -178,6 +178,20 @@ func readStep(c *Case, shared kit.AnyBuf, code, r, k int) string {
 		dst := kit.AllocAny(to, signal.Allocator{Channels: C, Length: c.RO, Capacity: c.RO + k%2})
 		n := convtab.Lookup(c.T, to).Convert(shared, dst)
 		return sVals(dst.Snap()) + " " + strconv.Itoa(n)
+	case 14: // no writers at all: the whole buffer is read-only. Striped read of everything, every channel
+		// exactly as far as it has samples (the first Partial channels one frame further)
+		if len(c.Writers) > 0 {
+			return "-"
+		}
+		lens := make([]int, C)
+		for i := range lens {
+			lens[i] = c.F
+			if i < c.Partial {
+				lens[i]++
+			}
+		}
+		out, n := shared.ReadStripedVals(lens)
+		return sRows(out) + " " + strconv.Itoa(n)
 	default: // short interleaved read straight from the shared header (only read-only positions are touched)
 		out, n := shared.ReadVals(kit.Min(c.C*c.RO, 1+k%5))
 		return sVals(out) + " " + strconv.Itoa(n)
